@@ -17,7 +17,8 @@ program   setup actions performed before run() + scripts attached to callbacks (
           callback performs the actions whose n equals its invocation index (0, 1, 2).
 
 virtual   SelectEventLoop with fake ``time`` / ``selectors`` objects bound into
-          ``urwid.event_loop.select_loop`` for the duration of the case.  The fake selector advances
+          ``urwid.event_loop.select_loop`` for the duration of the case.  case["scale"] = seconds per
+          program time unit (alarm delays, busy spans, arrival instants): 2**-10 s ... 10**9 s.  The fake selector advances
           the clock to min(timeout, next external readiness); a blocking select() with nothing
           scheduled ends the scenario.  One watch (the keeper) is always registered.  Everything is
           exact: tolerance 0, block points are observed directly.
@@ -60,9 +61,16 @@ RULE = (
     "enter_idle / remove_enter_idle / write n bytes / busy u units / raise ExitMainLoop|Boom, removal "
     "targets chosen modulo the live state (pending, already removed, self, sibling). virtual: "
     "SelectEventLoop under a virtual clock with an external readiness schedule (<=5 arrivals at instants "
-    "0..12) and a generated order of each ready batch; real: the same programs on select, asyncio, tornado, "
+    "0..12) and a generated order of each ready batch, one program time unit being 1 s or (40 %) a "
+    "millisecond, minute, hour, day, week, month, year, 2**31 s or 10**9 s; real: the same programs on select, asyncio, tornado, "
     "twisted, trio and zmq loops in a forked child each, unit 20 ms, pipes written from callbacks, a final "
     "alarm raising ExitMainLoop, and (except twisted) a second run() after a re-raised exception. "
+    "Deterministic sweeps: watch hand-over inside one ready batch (virtual); every history of 5 (thorough: 1..6) "
+    "watch_file / remove_watch_file calls over 3 descriptors (each step: watch a free descriptor or remove one "
+    "of the live watches), performed before run() or inside an alarm callback, then every descriptor made "
+    "readable - on all six real loops and (1..6 calls, both placements) under the virtual clock; alarmq: "
+    "every registration order of <=7 due times x one removal, plus random queues of <=14 alarms whose due "
+    "times mix seconds, minutes, hours, days, ... up to 40 x 10**9 s. "
     "Non-trivial: some callback script adds or removes a registration, or a callback is busy across other "
     "due times, or (virtual) an external arrival coincides with a setup alarm's due instant. Distinct = "
     "distinct case hash."
@@ -70,7 +78,9 @@ RULE = (
 ASSUMPTIONS = [
     "virtual: the fake time/selectors objects stand for the operating system (select returns exactly the "
     "registered descriptors that have unread bytes, in the generated order; time only moves inside select "
-    "or a busy callback)",
+    "or a busy callback); the fake selector accepts any timeout (the platform's limit on a single select()/"
+    "epoll wait, about 24.8 days, is not modelled) and all instants are integers or dyadic fractions, so the "
+    "virtual clock is exact at every time scale",
     "real: the loop's own clock is time.time (select, zmq, twisted) or the monotonic clock (asyncio, tornado, "
     "trio) and is read by the harness immediately before and after alarm(); 'due' is the interval "
     "[before+d, after+d]; order is asserted only for disjoint intervals; early firing tolerance 2 ms",
@@ -243,6 +253,8 @@ class Runtime:
             if name is None:
                 return
             r = self.watches[name]
+            if r["st"] == "r" and any(o["st"] == "a" and o["fd"] == r["fd"] for o in self.watches.values()):
+                return  # stale handle that would alias a newer watch on the same descriptor (see the comment above)
             ret = self.loop.remove_watch_file(r["h"])
             r["st"] = "r"
             self.log(e="rm_watch", n=name, ret=bool(ret))
@@ -576,11 +588,12 @@ def check_trace(trace, mode, loopname):
 
 
 class VWorld:
-    def __init__(self, schedule, order):
+    def __init__(self, schedule, order, unit=1.0):
         self.t = 0.0
+        self.unit = float(unit)  # seconds per program time unit (alarm delays, busy spans, arrival instants)
         self.trace = []
         self.pending: dict[int, int] = {}
-        self.future = sorted(([float(t), fd, n] for t, fd, n in schedule), key=lambda x: x[0])
+        self.future = sorted(([float(t) * self.unit, fd, n] for t, fd, n in schedule), key=lambda x: x[0])
         self.order = order
         self.registered: dict[int, object] = {}
         self.calls = 0
@@ -609,7 +622,10 @@ class VWorld:
         return False
 
     def busy(self, u):
-        self.t += float(u)
+        self.t += float(u) * self.unit
+
+    def sleep(self, seconds):
+        self.t += float(seconds)
 
     # fake OS
     def deliver(self):
@@ -686,8 +702,12 @@ class _FakeSelector:
 
 def check_virtual(case):
     setup, _h = compile_prog(case)
-    world = VWorld(case["ready"], case["order"])
-    fake_time = types.SimpleNamespace(time=world.now, monotonic=world.now, sleep=world.busy)
+    # one program time unit is `scale` seconds: the contract does not depend on the magnitude of the delays, so the
+    # same programs are run with units from a millisecond to decades.  Every scale is an integer or a power of two,
+    # so every instant of the scenario is an exactly representable float and the tolerance stays 0.
+    scale = case.get("scale", 1)
+    world = VWorld(case["ready"], case["order"], scale)
+    fake_time = types.SimpleNamespace(time=world.now, monotonic=world.now, sleep=world.sleep)
     fake_selectors = types.SimpleNamespace(
         DefaultSelector=lambda: _FakeSelector(world), EVENT_READ=1, EVENT_WRITE=2
     )
@@ -697,7 +717,7 @@ def check_virtual(case):
         from urwid.event_loop.select_loop import SelectEventLoop
 
         loop = SelectEventLoop()
-        rt = Runtime(loop, world, 1.0)
+        rt = Runtime(loop, world, world.unit)
         world.rt = rt
         loop.watch_file(KEEPER_FD, lambda: None)  # never readable, never removed
         if rt.setup(setup):
@@ -920,7 +940,7 @@ def check_alarm_queue(case):
     dues = case["dues"]
     n = len(dues)
     world = VWorld([], 0)
-    fake_time = types.SimpleNamespace(time=world.now, monotonic=world.now, sleep=world.busy)
+    fake_time = types.SimpleNamespace(time=world.now, monotonic=world.now, sleep=world.sleep)
     fake_selectors = types.SimpleNamespace(DefaultSelector=lambda: _FakeSelector(world), EVENT_READ=1, EVENT_WRITE=2)
     saved = (_sl.time, _sl.selectors)
     _sl.time, _sl.selectors = fake_time, fake_selectors
@@ -986,6 +1006,12 @@ SUBS = {"virtual": check_virtual, "real": check_real, "alarmq": check_alarm_queu
 
 # ---------------------------------------------------------------------------------------------
 # strategies
+
+# virtual clock: seconds per program time unit.  A millisecond (2**-10 s), a second, minute, hour, day, week,
+# month, year, 2**31 s and 10**9 s: the orders of magnitude a caller can pass to alarm(); all exact floats.
+MINUTE, HOUR, DAY = 60, 3600, 86400
+TIME_UNITS = [2**-10, MINUTE, HOUR, DAY, 7 * DAY, 30 * DAY, 365 * DAY, 2**31, 10**9]
+SCALES = [1] * 6 + TIME_UNITS
 
 _k = st.integers(0, 5)
 _mode_a = st.sampled_from([0, 0, 0, 1, 2])
@@ -1071,6 +1097,7 @@ def _case(loop):
             st.tuples(st.integers(0, 12), st.integers(0, 2), st.integers(1, 2)).map(list), max_size=5
         )
         d["order"] = st.integers(0, 5)
+        d["scale"] = st.sampled_from(SCALES)
     return st.fixed_dictionaries(d).map(_sanitize)
 
 
@@ -1105,6 +1132,8 @@ def _classify(case):
         dues = {a[1] for a in case["setup"] if a[0] == "alarm"}
         if any(t in dues for t, _fd, _n in case["ready"]):
             out.add("virtual:arrival-at-alarm-instant")
+        sc = case.get("scale", 1)
+        out.add("virtual:unit=" + ("1s" if sc == 1 else "<1s" if sc < 1 else "<=1h" if sc <= HOUR else "<=30d" if sc <= 30 * DAY else ">30d"))
     return sorted(out)
 
 
@@ -1130,6 +1159,47 @@ def _handover_sweep():
                            "idle_edit": False, "idle_raise": False, "ready": [], "order": order}
 
 
+def _watch_histories(lmin, lmax):
+    """every sequence of lmin..lmax watch_file / remove_watch_file calls over three descriptors: at each step either
+    a watch on one of the descriptors not being watched or the removal of one of the live watches (by age), i.e. three
+    choices per step whatever the state -> 3**L sequences of length L"""
+    def rec(seq, live, left):
+        if len(seq) >= lmin:
+            yield list(seq)
+        if not left:
+            return
+        for fd in range(3):
+            if fd not in live:
+                yield from rec([*seq, ["watch", fd, []]], [*live, fd], left - 1)
+        for r in range(len(live)):
+            yield from rec([*seq, ["rm_watch", r, 0]], live[:r] + live[r + 1:], left - 1)
+
+    yield from rec([], [], lmax)
+
+
+def _watch_history_cases(loops, lmin, lmax, placements):
+    """the history is performed before run() (placement 0) or from within an alarm callback (placement 1); then every
+    descriptor receives two bytes.  The trace oracle decides: a removed watch is never called, a watch still
+    registered is called (real loops: before the final alarm, 3 units later, if the loop slept in between)."""
+    writes = [["write", fd, 2] for fd in range(3)]
+    for loop in loops:
+        for i, hist in enumerate(_watch_histories(lmin, lmax)):
+            for pl in placements:
+                if pl == "alt":
+                    # (TrioEventLoop cannot remove anything outside run(): a known finding, so nothing is learnt there)
+                    pl = 1 if loop == "trio" else i % 2
+                if pl == 0:
+                    setup = [*hist, *writes, ["alarm", 0, []]]
+                else:
+                    setup = [["alarm", 0, [[0, a] for a in [*hist, *writes]]]]
+                case = {"setup": setup, "idle_edit": False, "idle_raise": False}
+                if loop is None:
+                    case.update(ready=[], order=i % 6, scale=1)
+                else:
+                    case.update(loop=loop, keeper=True)
+                yield case
+
+
 def _alarmq_sweep(nmax):
     """every registration order of n distinct due times (n <= nmax) x one removal before run()"""
     for n in range(2, nmax + 1):
@@ -1138,9 +1208,15 @@ def _alarmq_sweep(nmax):
                 yield {"dues": list(perm), "pre": [j], "incb": []}
 
 
+# due times of one queue mix magnitudes: m seconds, or m minutes / hours / days / ... (integers: exact floats)
+_due = st.one_of(
+    st.integers(1, 40),
+    st.integers(1, 40),
+    st.builds(lambda m, u: m * u, st.integers(1, 40), st.sampled_from([u for u in TIME_UNITS if u >= 1])),
+)
 _alarmq_cases = st.builds(
     lambda dues, pre, incb: {"dues": dues, "pre": pre, "incb": incb},
-    st.lists(st.integers(1, 40), min_size=3, max_size=14, unique=True),
+    st.lists(_due, min_size=3, max_size=14, unique=True),
     st.lists(st.integers(0, 13), max_size=5),
     st.lists(st.tuples(st.integers(0, 13), st.integers(0, 13)).map(list), max_size=4),
 )
@@ -1154,6 +1230,17 @@ def shard(ctx):
     for name in LOOPS:
         if ctx.failure is None:
             ctx.given("real", _case(name), ctx.scale(7, 125), nontrivial=_nontrivial, classify=_classify)
+    if ctx.failure is None:
+        # watch-table histories on every loop: quick = every history of exactly 5 calls (243), placed alternately
+        # before run() / inside an alarm callback; thorough = every history of 1..6 calls in both placements
+        quick = ctx.tier == "quick"
+        ctx.sweep("real", _watch_history_cases(LOOPS, 5 if quick else 1, 5 if quick else 6, ["alt"] if quick else [0, 1]),
+                  nontrivial=lambda c: True, classify=lambda c: [f"real:{c['loop']}:watch-history"],
+                  exhaustive_name="real loops: every watch_file/remove_watch_file history of 5 (1..6) calls over 3 descriptors")
+    if ctx.failure is None:
+        ctx.sweep("virtual", _watch_history_cases([None], 1, 6, [0, 1]),
+                  nontrivial=lambda c: True, classify=lambda c: ["virtual:watch-history"],
+                  exhaustive_name="virtual: every watch_file/remove_watch_file history of 1..6 calls x 2 placements")
     if ctx.failure is None:
         ctx.given("virtual", _case(None), ctx.scale(500, 15000), nontrivial=_nontrivial, classify=_classify)
     if ctx.failure is None:
